@@ -50,8 +50,17 @@ def listReplace (cfg : Cfg) (f : Forest) (m : Meta) (index : Int) (pos : Nat) (o
     (old.setParent none)
 
 /-- insert (list.py:422-424; patched: the shifted siblings are re-indexed). -/
-def listInsert (cfg : Cfg) (f : Forest) (m : Meta) (index : Int) (len : Nat) (ve : VE) : Forest :=
-  let r := evalVE cfg f none (some m.id) false m.part (m.path ++ [Key.i index]) ve
+def ownElement (its : Items) : VE → Option Tree
+  | .ref id => (its.find? (fun kv => kv.2.id? == some id)).map (·.2)
+  | _ => none
+
+def listInsert (cfg : Cfg) (f : Forest) (m : Meta) (its : Items) (index : Int) (len : Nat) (ve : VE) : Forest :=
+  -- fixes/C01-F79: a value that already is an element of this list is copied first
+  let r := match (if cfg.insertCopiesOwn then ownElement its ve else none) with
+    | some own =>
+      let c := own.clone cfg false f.nextId (some m.id) (m.path ++ [Key.i index])
+      ({ f with nextId := c.2 }, c.1)
+    | none => evalVE cfg f none (some m.id) false m.part (m.path ++ [Key.i index]) ve
   r.1.mapAt m.id (fun m' xs =>
     let ys := insertAt (pyInsertPos index len) r.2 xs
     if cfg.reindexOnMutate then reindex m' ys else ys)
@@ -76,7 +85,7 @@ def rawSetList (cfg : Cfg) (f : Forest) (m : Meta) (its : Items) (key : Int) (in
     | none => .error .index
     | some old =>
       if sameValue ve (some old) then .ok (f, false) else .ok (listReplace cfg f m index pos old ve, true)
-  else if index < len then .ok (listInsert cfg f m index its.length ve, true)
+  else if index < len then .ok (listInsert cfg f m its index its.length ve, true)
   else .ok (listAppend cfg f m index ve, true)
 
 def dictBadKey (m : Meta) (key : Key) : Bool :=
